@@ -104,6 +104,8 @@ pub fn consolidate_shards_in_directory(
 
                 finished_shard_hashes.insert(new_sfi.shard_hash);
                 finished_shards.push(new_sfi);
+                #[cfg(xet_verif)]
+                utils::verif::point("consolidate:merged_written");
 
                 // Delete the old ones.
                 for sfi in shards[cur_idx..ub_idx].iter() {
@@ -124,7 +126,11 @@ pub fn consolidate_shards_in_directory(
                     &finished_shards.last().unwrap().shard_hash
                 );
 
+                #[cfg(xet_verif)]
+                utils::verif::point("consolidate:before_delete");
                 std::fs::remove_file(path)?;
+                #[cfg(xet_verif)]
+                utils::verif::point("consolidate:deleted");
             }
 
             cur_idx = ub_idx;
